@@ -312,6 +312,10 @@ _pixman_internal_only_get_implementation (void)
     return get_implementation ();
 }
 
+#ifdef PIXMAN_VERIF
+pixman_verif_sink_t _pixman_verif_sink;
+#endif
+
 void
 _pixman_log_error (const char *function, const char *message)
 {
